@@ -529,3 +529,35 @@ CHECKS["C10"] = {
         {"name": "TestRegression_.*", "quick": {}, "thorough": {}},
     ],
 }
+
+CHECKS["C11"] = {
+    "pkg": "./c11/",
+    "level": "exploration",
+    "technique": ("model-based property testing (rapid): generated write/flush/compact/reopen histories with generated SQL statements checked against a naive "
+                  "reference model that keeps every point; harness-owned interleavings inside family.Flush (kv FS hooks + the replica ack callback); "
+                  "goroutine stress variant with a bounds/exact oracle (-race in the thorough tier)"),
+    "rule": ("TestQueryModel / TestQueryModelHistogram: history = 3-14 operations (write of 1-8 proto rows with dyadic values k/8, |k| < 2^20, duplicate and out-of-order slots, "
+             "1-3 families of a 1s/5s/10s/30s/1m database incl. gaps and midnight, 1-3 metrics, 1-6 series; FlushDB, family.Flush, kv compaction, engine reopen; statements anywhere). "
+             "Statement = plain field or a function series/field/type.go allows (sum/min/max/last/first; count and avg are rejected by the planner for every type and are not generated), "
+             "1-3 select items, absolute time range (all/part), group by time(multiple of the storage interval) or none, tag condition (=, in, like), group by tags. "
+             "Oracle: series set, timestamp set and values == model (exact; membership in the candidate set for last/first with several candidates). "
+             "case non-trivial = some answer has >= 2 slots and its points came from >= 2 of {mutable memdb, immutable memdb, file}; "
+             "TestQueryDuringFlush: same, with statements (and writes) placed at FS operations of the flush and between file commit and release of the immutable memdb, "
+             "non-trivial additionally requires that window to be reached; TestConcurrentFlushQuery round non-trivial = >= 2 flushes and >= 10 checked answers; "
+             "distinct = hash of schema + history"),
+    "level_text": ("Exploration: thousands of generated histories per run, every statement compared with an independent model (exact because all values are dyadic); "
+                   "flush interleavings are owned at seam granularity (deterministic, shrinkable), plus an unsystematic real-goroutine run whose oracle cannot raise false alarms "
+                   "(writes completed before the query <= answer <= writes started before it returned; == when no write overlapped)."),
+    "level_note": ("One shard, one leaf, one storage interval per database (sharding/placement is C12, rollup C04). last/first with several candidates from different flushes/series: membership only "
+                   "(merge order is fixed by no document); rate/stddev/quantile are not generated; the +Inf bucket cannot be named in SQL. Known findings: function aggregate between parts of one slot "
+                   "(oracle accepts the placement-reachable values while listed), memdb reads overlapping a write (answers of such queries are not checked while listed)."),
+    "assumptions": ["TZ=UTC", "a write and a Flush call of its own family never overlap in the stress test (the property quantifies over queries concurrent with flush)",
+                    "one engine per process at a time; every engine uses its own database name (lindb's pool gauges are process-wide by name)"],
+    "tests": [
+        {"name": "TestQueryModel", "quick": 1200, "thorough": {"checks": 6000, "shards": 12}},
+        {"name": "TestQueryModelHistogram", "quick": 500, "thorough": {"checks": 3000, "shards": 4}},
+        {"name": "TestQueryDuringFlush", "quick": 600, "thorough": {"checks": 4000, "shards": 6}},
+        {"name": "TestConcurrentFlushQuery", "quick": 2, "thorough": {"checks": 1, "race": True, "timeout": 3000}},
+        {"name": "TestRegression.*|TestModelSelfTest", "quick": {}, "thorough": {}},
+    ],
+}
